@@ -21,7 +21,7 @@ REAL = ["pyvsc (all of src/vsc)", "PyBoolector", "Python random (RandState)"]
 STUB = ["user code (generated)", "stdout (sink)"]
 ASSUMPTIONS = ["uniformity is only claimed when a's feasible values fill its inferred range (no top-level "
                "constraint on a); distribution shifts below ~6 sigma at N pass"]
-REQUIRED_NONZERO = {"*": ["hard_calls", "freq_tests", "freq_systems", "chain_systems", "list_systems"]}
+REQUIRED_NONZERO = {"*": ["hard_calls", "freq_tests", "freq_systems", "chain_systems", "list_systems", "relists"]}
 TECHNIQUE = ("deterministic simulation: seeded call sequences with per-step constraint oracle and exact "
              "binomial tail bounds on the ordered variable's histogram")
 
@@ -37,7 +37,11 @@ def generate(seed, tier):
     rng = st.prog
     wa = rng.choice([1, 2, 2, 3])
     wb = rng.choice([3, 4, 5])
-    kind = rng.choice(["pair", "pair", "chain", "list"])
+    kind = rng.choice(["pair", "pair", "chain", "list", "chain_bc", "chain_bc", "listop"])
+    if kind == "chain_bc":
+        return gen_chain_bc(st, seed, tier)
+    if kind == "listop":
+        return gen_listop(st, seed, tier)
     fields = [{"n": "a", "k": "s", "w": wa, "s": False, "r": True, "i": 0},
               {"n": "b", "k": "s", "w": wb, "s": False, "r": True, "i": 0}]
     stmts = []
@@ -83,6 +87,60 @@ def generate(seed, tier):
             "n": 1500 if tier == "quick" else 6000, "k": st.lib.randint(0, 1 << 30)}
 
 
+def gen_chain_bc(st, seed, tier):
+    """chain a before b before c where only b and c are related: b must be uniform however
+    many c values accompany each b value, whichever field the statements mention first"""
+    rng = st.prog
+    wa, wb, wc = rng.choice([1, 2]), rng.choice([2, 3]), rng.choice([3, 4])
+    fields = [{"n": n, "k": "s", "w": w_, "s": False, "r": True, "i": 0}
+              for n, w_ in (("a", wa), ("b", wb), ("c", wc))]
+    stmts = [{"t": "solve_order", "before": [["a"]], "after": [["b"]]},
+             {"t": "solve_order", "before": [["b"]], "after": [["c"]]}]
+    cmax = (1 << wc) - 1
+    cons = []
+    for k in rng.sample(range(1 << wb), rng.randint(1, max(1, (1 << wb) // 2))):
+        lo = rng.randint(0, cmax - 1)
+        c_in = {"t": "in", "e": progs.F("c"), "rl": [[lo, lo + rng.choice([0, 1])]]}
+        b_ne = progs.BIN("!=", progs.F("b"), progs.LIT(k))
+        if rng.random() < 0.5:
+            cons.append(progs.EXPR(progs.BIN("|", c_in, b_ne)))          # mentions c first
+        else:
+            cons.append({"t": "implies", "c": progs.BIN("==", progs.F("b"), progs.LIT(k)),
+                         "body": [progs.EXPR(c_in)]})
+    if rng.random() < 0.5:
+        stmts = cons + stmts
+    else:
+        stmts = stmts + cons
+    prog = {"enums": [], "top": "K0",
+            "classes": [{"name": "K0", "fields": fields, "blocks": [{"n": "c0", "stmts": stmts}]}]}
+    ops = [{"op": "new", "cls": "K0"}, {"op": "seed", "p": 0, "k": st.lib.randint(0, 1 << 30)},
+           {"op": "randomize", "p": 0}, {"op": "randomize", "p": 0}]
+    return {"prop": ID, "seed": seed, "prog": prog, "ops": ops, "kind": "chain_bc", "judge": ["a", "b"],
+            "n": 1500 if tier == "quick" else 6000, "k": st.lib.randint(0, 1 << 30)}
+
+
+def gen_listop(st, seed, tier):
+    """solve_order with a list operand; the list's elements are replaced (same length) between two
+    phases of draws"""
+    rng = st.prog
+    wl, wx = 2, rng.choice([3, 4])
+    fields = [{"n": "l", "k": "l", "w": wl, "s": False, "r": True, "rsz": False, "sz": 2},
+              {"n": "x", "k": "s", "w": wx, "s": False, "r": True, "i": 0}]
+    xmax = (1 << wx) - 1
+    stmts = [{"t": "solve_order", "before": [["l"]], "after": [["x"]]}]
+    for k in rng.sample(range(1 << wl), rng.randint(1, 2)):
+        lo = rng.randint(0, xmax - 1)
+        stmts.append({"t": "implies", "c": progs.BIN("==", progs.F("l", 0), progs.LIT(k)),
+                      "body": [progs.EXPR({"t": "in", "e": progs.F("x"), "rl": [[lo, lo + rng.choice([0, 1])]]})]})
+    prog = {"enums": [], "top": "K0",
+            "classes": [{"name": "K0", "fields": fields, "blocks": [{"n": "c0", "stmts": stmts}]}]}
+    ops = [{"op": "new", "cls": "K0"}, {"op": "seed", "p": 0, "k": st.lib.randint(0, 1 << 30)},
+           {"op": "randomize", "p": 0}]
+    return {"prop": ID, "seed": seed, "prog": prog, "ops": ops, "kind": "listop", "judge": [["l", 0]],
+            "phase2": {"relist": "l"}, "n": 1500 if tier == "quick" else 6000,
+            "k": st.lib.randint(0, 1 << 30)}
+
+
 def sample(rec):
     return {"seed": rec["seed"], "kind": rec["kind"], "prog": rec["prog"], "ops": rec["ops"][:6], "n": rec["n"]}
 
@@ -114,16 +172,15 @@ def execute(rec):
     if rec["kind"] == "list":
         stats["list_systems"] = 1
     # reference enumeration
-    names = [f["n"] for f in P.fields("K0")]
-    doms = [list(refsem.path_domain(P, "K0", [n])) for n in names]
-    sols = []
-    t = {n: 0 for n in names}
-    for combo in itertools.product(*doms):
-        for n, v in zip(names, combo):
-            t[n] = v
-        if refsem.check_tree(P, "K0", t) is None:
-            sols.append(combo)
-    ai = names.index("a")
+    tree0 = {}
+    for f in P.fields("K0"):
+        tree0[f["n"]] = [0] * f.get("sz", 0) if f["k"] == "l" else 0
+    rpaths = refsem.rand_scalar_paths(P, "K0", tree0)
+    names = [refsem.path_key(q) for q in rpaths]
+    doms = [list(refsem.path_domain(P, "K0", q)) for q in rpaths]
+    sols = refsem.enumerate_solutions(P, "K0", tree0, rpaths, limit=1 << 16)
+    t = refsem.copy_tree(tree0)
+    ai = names.index("a") if "a" in names else 0
     comp = {}
     for s in sols:
         comp[s[ai]] = comp.get(s[ai], 0) + 1
@@ -144,8 +201,8 @@ def execute(rec):
         if inline:
             sat = False
             for s in sols:
-                for n, v in zip(names, s):
-                    t[n] = v
+                for q, v in zip(rpaths, s):
+                    refsem.set_path(t, q, v)
                 if refsem.check_tree(P, "K0", t, None, None, inline) is None:
                     sat = True
                     break
@@ -166,39 +223,72 @@ def execute(rec):
             viol.append({"inv": "C20.hard_holds", "cls": "C20.hard_holds",
                          "detail": {"op": oi, "tree": tree, "failing": fail}})
             break
-    # variables solved together with a (list form): a's distribution is only
-    # independent of them if every combination of the 'before' variables is feasible
+    # which variables are judged for uniformity
+    judge = rec.get("judge") or ["a"]
     joint_ok = True
     if rec["kind"] == "list":
         ci = names.index("c")
         pairs = set((s[ai], s[ci]) for s in sols)
         joint_ok = len(pairs) == len(doms[ai]) * len(doms[ci])
-    if not viol and joint_ok and len(comp) == len(doms[ai]) and len(w.parties) > 0:
-        # every value of a is feasible and nothing narrows a's range: uniform expected
-        stats["freq_systems"] = 1
-        if max(comp.values()) >= 4 * min(comp.values()):
-            stats["skew4x_systems"] = 1
-            nontrivial = True
-        w.apply({"op": "seed", "p": 0, "k": rec["k"]})
+    if rec["kind"] in ("chain_bc", "listop"):
+        stats["chain_systems"] += 1 if rec["kind"] == "chain_bc" else 0
+        stats["list_systems"] += 1 if rec["kind"] == "listop" else 0
+    phases = [None] + ([rec["phase2"]] if rec.get("phase2") else [])
+    if not viol and joint_ok and len(w.parties) > 0:
         obj = w.parties[0].obj
-        n = rec["n"]
-        counts = {v: 0 for v in doms[ai]}
-        for _ in range(n):
-            obj.randomize()
-            counts[int(obj.a)] += 1
-        stats["draws"] = n
-        obs.append(sorted(counts.items()))
-        p = 1.0 / len(doms[ai])
-        for v in doms[ai]:
-            ok, tail = statcheck.binom_ok(counts[v], n, p)
-            stats["freq_tests"] += 1
-            if not ok:
-                viol.append({"inv": "C20.frequency", "cls": "C20.frequency",
-                             "detail": {"a": v, "count": counts[v], "n": n, "p": p, "tail": tail,
-                                        "sigma": statcheck.sigma(counts[v], n, p),
-                                        "counts": sorted(counts.items()),
-                                        "companions": sorted(comp.items())}})
+        for ph in phases:
+            if viol:
                 break
+            if ph is not None and ph.get("relist"):
+                # replace the list's elements, same length
+                l = getattr(obj, ph["relist"])
+                vals = [int(v) for v in l]
+                l.clear()
+                for v in vals:
+                    l.append(v)
+                stats["relists"] = stats.get("relists", 0) + 1
+            w.apply({"op": "seed", "p": 0, "k": rec["k"]})
+            n = rec["n"]
+            tallies = {}
+            for jv in judge:
+                tallies[str(jv)] = {}
+            for _ in range(n):
+                obj.randomize()
+                for jv in judge:
+                    v = int(getattr(obj, jv)) if isinstance(jv, str) else int(getattr(obj, jv[0])[jv[1]])
+                    tallies[str(jv)][v] = tallies[str(jv)].get(v, 0) + 1
+            stats["draws"] += n
+            for jv in judge:
+                # feasible values of the judged variable, from the reference enumeration
+                col = names.index(jv if isinstance(jv, str) else refsem.path_key(jv))
+                feas = sorted(set(s[col] for s in sols))
+                full = len(feas) == len(doms[col])
+                dom_j = doms[col]
+                if not full:
+                    continue
+                stats["freq_systems"] += 1
+                comp_j = {}
+                for s_ in sols:
+                    comp_j[s_[col]] = comp_j.get(s_[col], 0) + 1
+                if max(comp_j.values()) >= 4 * min(comp_j.values()):
+                    stats["skew4x_systems"] += 1
+                    nontrivial = True
+                p_ = 1.0 / len(dom_j)
+                counts = tallies[str(jv)]
+                obs.append(sorted(counts.items()))
+                for v in dom_j:
+                    ok, tail = statcheck.binom_ok(counts.get(v, 0), n, p_)
+                    stats["freq_tests"] += 1
+                    if not ok:
+                        viol.append({"inv": "C20.frequency", "cls": "C20.frequency",
+                                     "detail": {"var": jv, "value": v, "count": counts.get(v, 0), "n": n,
+                                                "p": p_, "tail": tail, "phase": 0 if ph is None else 1,
+                                                "sigma": statcheck.sigma(counts.get(v, 0), n, p_),
+                                                "counts": sorted(counts.items()),
+                                                "companions": sorted(comp_j.items())}})
+                        break
+                if viol:
+                    break
     sig = rec["kind"] + "|" + progs.shape_sig(rec["prog"]["classes"]) + "|" + \
         kernel.digest(sorted(comp.values()))[:8]
     return {"viol": viol, "stats": stats, "digest": kernel.digest(obs),
